@@ -162,11 +162,15 @@ func (m *multi) DeserializeCellBlocks(msg proto.Message, b []byte) (uint32, erro
 	mr := msg.(*pb.MultiResponse)
 
 	var nread uint32
+	seen := make([]bool, len(m.calls))
 	for _, rar := range mr.GetRegionActionResult() {
 		if e := rar.GetException(); e != nil {
 			if l := len(rar.GetResultOrException()); l != 0 {
 				return 0, fmt.Errorf(
 					"got exception for region, but still have %d result(s) returned from it", l)
+			}
+			if e.Name == nil {
+				return 0, errors.New("exception for region has no name in multi response")
 			}
 			continue
 		}
@@ -182,11 +186,20 @@ func (m *multi) DeserializeCellBlocks(msg proto.Message, b []byte) (uint32, erro
 				return 0, errors.New("no result or exception for action in multi response")
 			} else if r != nil && e != nil {
 				return 0, errors.New("got result and exception for action in multi response")
-			} else if e != nil {
+			} else if int(i) > len(m.calls) || m.calls[i-1] == nil {
+				return 0, fmt.Errorf(
+					"result for action %d in multi response, which the request didn't have", i)
+			} else if seen[i-1] {
+				return 0, fmt.Errorf("more than one result for action %d in multi response", i)
+			} else if e != nil && e.Name == nil {
+				return 0, errors.New("exception for action has no name in multi response")
+			}
+			seen[i-1] = true
+			if e != nil {
 				continue
 			}
 
-			c := m.get(i)                     // TODO: maybe return error if it's out-of-bounds
+			c := m.get(i)
 			d := c.(canDeserializeCellBlocks) // let it panic, because then it's our bug
 
 			response := c.NewResponse()
@@ -229,19 +242,36 @@ func (m *multi) returnResults(msg proto.Message, err error) {
 
 	// Here we can assume that everything has been deserialized correctly.
 	// Dispatch results to appropriate calls.
+	returned := make([]bool, len(m.calls))
+	defer func() {
+		// Every call has to get a result: let the ones that the
+		// response has no result for be retried.
+		for i, c := range m.calls {
+			if c == nil || returned[i] {
+				continue
+			}
+			c.ResultChan() <- hrpc.RPCResult{Error: RetryableError{
+				errors.New("no result for the call in the multi response")}}
+		}
+	}()
 	for i, rar := range mr.GetRegionActionResult() {
 		if e := rar.GetException(); e != nil {
+			if i >= len(m.regions) {
+				// an exception for a region that the request didn't have
+				continue
+			}
 			// Got an exception for the whole region,
 			// fail all the calls for that region.
 			reg := m.regions[i]
 
-			err := exceptionToError(*e.Name, string(e.Value))
-			for _, c := range m.calls {
+			err := exceptionToError(e.GetName(), string(e.Value))
+			for j, c := range m.calls {
 				if c == nil {
 					continue
 				}
 				if c.Region() == reg {
 					c.ResultChan() <- hrpc.RPCResult{Error: err}
+					returned[j] = true
 				}
 			}
 			continue
@@ -253,12 +283,13 @@ func (m *multi) returnResults(msg proto.Message, err error) {
 			r := roe.GetResult()
 
 			c := m.get(i)
+			returned[i-1] = true
 
 			// TODO: don't bother if the call's context has already expired
 
 			if e != nil {
 				c.ResultChan() <- hrpc.RPCResult{
-					Error: exceptionToError(*e.Name, string(e.Value)),
+					Error: exceptionToError(e.GetName(), string(e.Value)),
 				}
 				continue
 			}
